@@ -41,6 +41,12 @@ pub struct Case {
     /// 4 try_recv_timeout loop (typed channels)
     pub recv_mode: u8,
     pub bytes: bool,
+    /// free-running only: multi-packet messages are 40 times larger (senders block on full
+    /// buffers while the receiver works) and a helper thread keeps interrupting the sender threads
+    /// with a signal whose handler does nothing and is installed with SA_RESTART - which must not
+    /// be observable
+    #[serde(default)]
+    pub big_and_signals: bool,
 }
 
 fn msg_len(packets: u8, salt: usize) -> usize {
@@ -121,10 +127,14 @@ impl Prop for C02 {
                 slots.swap(i, j);
             }
             // per-sender order is implied (a sender's packets are its own sequence)
-            Case { senders, schedule: slots, jitter: vec![], process_mask: 0, recv_mode, bytes }
+            Case { senders, schedule: slots, jitter: vec![], process_mask: 0, recv_mode, bytes, big_and_signals: false }
         });
         let free = (proptest::collection::vec(sender, 1..=8), proptest::collection::vec(0u16..4000, 8), prop_oneof![Just(0u8), any::<u8>()], 0u8..5, any::<bool>())
-            .prop_map(|(senders, jitter, process_mask, recv_mode, bytes)| Case { senders, schedule: vec![], jitter, process_mask, recv_mode, bytes });
+            .prop_map(|(senders, jitter, process_mask, recv_mode, bytes)| {
+                // a quarter of the thread-only cases get big messages and signals
+                let big_and_signals = process_mask == 0 && jitter.first().map(|j| j % 4 == 0).unwrap_or(false);
+                Case { senders, schedule: vec![], jitter, process_mask, recv_mode, bytes, big_and_signals }
+            });
         // the gate owns the packet order only if no real transmission can block: small packets only
         if cfg!(feature = "inproc") || c01::capacities().0 > 16384 {
             free.boxed()
@@ -141,7 +151,7 @@ impl Prop for C02 {
         let mut add = |senders: Vec<Vec<u8>>, recv_mode: u8| {
             let counts: Vec<usize> = senders.iter().map(|s| s.iter().map(|p| *p as usize).sum()).collect();
             for sch in multiset_perms(&counts) {
-                v.push(Case { senders: senders.clone(), schedule: sch, jitter: vec![], process_mask: 0, recv_mode, bytes: false });
+                v.push(Case { senders: senders.clone(), schedule: sch, jitter: vec![], process_mask: 0, recv_mode, bytes: false, big_and_signals: false });
             }
         };
         add(config(2, 2, 2), 1); // 70
@@ -178,11 +188,14 @@ enum Rx {
     B(ipc::IpcBytesReceiver),
 }
 
-fn do_sends(tx: &Tx, si: usize, msgs: &[u8], jitter: u16) -> Vec<SendRec> {
+fn do_sends(tx: &Tx, si: usize, msgs: &[u8], jitter: u16, big: bool) -> Vec<SendRec> {
     let mut out = vec![];
     for (k, p) in msgs.iter().enumerate() {
         sandbox::spin(jitter as u32 * 4);
         let mut len = msg_len(*p, si * 7 + k);
+        if big && *p >= 2 {
+            len = (len * 40).min(1_500_000);
+        }
         if matches!(tx, Tx::T(_)) && len > 100 {
             len -= 24; // the typed wrapper adds 24 bytes: keep the packet count
         }
@@ -272,7 +285,7 @@ fn run_inner(case: &Case) -> Result<Outcome, Failure> {
             let msgs = case.senders[si].clone();
             let jit = case.jitter.get(si).copied().unwrap_or(0);
             let c = sandbox::fork_child(|w| {
-                let recs = do_sends(&t, si, &msgs, jit);
+                let recs = do_sends(&t, si, &msgs, jit, false);
                 drop(t);
                 let _ = w.write_all(serde_json::to_string(&recs).unwrap().as_bytes());
                 0
@@ -286,6 +299,9 @@ fn run_inner(case: &Case) -> Result<Outcome, Failure> {
         ip::gate_install(&sched);
     }
     let barrier = Arc::new(Barrier::new(n_senders - children.len() + 1));
+    let big = case.big_and_signals && !gated && !cfg!(feature = "inproc") && recv_mode != 1;
+    let tids_all: Arc<std::sync::Mutex<Vec<i32>>> = Default::default();
+    let pester_stop = Arc::new(std::sync::atomic::AtomicBool::new(false));
     let mut threads = vec![];
     for si in 0..n_senders {
         if process_mask >> si & 1 == 1 {
@@ -295,12 +311,14 @@ fn run_inner(case: &Case) -> Result<Outcome, Failure> {
         let msgs = case.senders[si].clone();
         let jit = case.jitter.get(si).copied().unwrap_or(0);
         let b = barrier.clone();
+        let tids = tids_all.clone();
         threads.push(std::thread::spawn(move || {
             if gated {
                 ip::register_participant(si);
             }
+            tids.lock().unwrap().push(ip::gettid());
             b.wait();
-            let r = do_sends(&t, si, &msgs, jit);
+            let r = do_sends(&t, si, &msgs, jit, big);
             if gated {
                 ip::unregister_participant(si);
             }
@@ -410,10 +428,30 @@ fn run_inner(case: &Case) -> Result<Outcome, Failure> {
     let (go_tx, go_rx) = std::sync::mpsc::channel();
     let rthread = std::thread::spawn(move || receiver(go_rx));
     barrier.wait();
+    let pesterer = if big {
+        install_noop_sigusr1();
+        let (tids, stop) = (tids_all.clone(), pester_stop.clone());
+        Some(std::thread::spawn(move || {
+            let pid = unsafe { libc::getpid() };
+            let mut n = 0u64;
+            while !stop.load(std::sync::atomic::Ordering::SeqCst) {
+                for t in tids.lock().unwrap().iter() {
+                    unsafe { libc::syscall(libc::SYS_tgkill, pid, *t, libc::SIGUSR1) };
+                    n += 1;
+                }
+                std::thread::sleep(Duration::from_micros(60));
+            }
+            n
+        }))
+    } else {
+        None
+    };
 
     // join senders (under the watchdog: a gate that never opens would be a harness bug, a send that
     // never returns a library hang)
     let joined = sandbox::watched(move || threads.into_iter().map(|t| t.join()).collect::<Vec<_>>());
+    pester_stop.store(true, std::sync::atomic::Ordering::SeqCst);
+    let signals = pesterer.map(|p| p.join().unwrap_or(0)).unwrap_or(0);
     let consumed = if gated { ip::gate_position() as usize } else { 0 };
     if gated {
         ip::gate_remove();
@@ -504,10 +542,25 @@ fn run_inner(case: &Case) -> Result<Outcome, Failure> {
         if case.bytes { "+bytes" } else { "" },
         if process_mask != 0 { "+processes" } else { "" },
         if nontrivial { "+interleaved-multipacket" } else { "" }
-    );
+    ) + if big { "+big+signals" } else { "" };
     Ok(Outcome::new(nontrivial, class)
         .with("messages", total as u64)
         .with("happened_before_pairs_checked", hb_pairs)
         .with("gated_schedules", gated as u64)
+        .with("signals_delivered_to_sender_threads", signals)
         .with("gated_schedules_consumed_exactly", (gated && consumed == case.schedule.len()) as u64))
+}
+
+/// SIGUSR1 handler that does nothing, installed with SA_RESTART (once per process).
+fn install_noop_sigusr1() {
+    use std::sync::Once;
+    static ONCE: Once = Once::new();
+    extern "C" fn noop(_: libc::c_int) {}
+    ONCE.call_once(|| unsafe {
+        let mut sa: libc::sigaction = std::mem::zeroed();
+        sa.sa_sigaction = noop as *const () as usize;
+        sa.sa_flags = libc::SA_RESTART;
+        libc::sigemptyset(&mut sa.sa_mask);
+        libc::sigaction(libc::SIGUSR1, &sa, std::ptr::null_mut());
+    });
 }
